@@ -20,6 +20,11 @@ def c27Step (_ : Unit) (op impl : String) : Unit × String × String :=
     match fields op with
     | ["rt", codec, fl, _] =>
       if fl.length != 2 then ("bad-op", "ok") else ("-", judgeRT codec (fl.startsWith "1") (fl.endsWith "1") impl)
+    | ["bd", codec, fl, bound, n, mx, _] =>
+      match n.toNat?, mx.toNat? with
+      | some n, some mx =>
+        if fl.length != 2 then ("bad-op", "ok") else ("-", judgeBD codec bound (fl.startsWith "1") (fl.endsWith "1") n mx impl)
+      | _, _ => ("bad-op", "ok")
     | ["gb", codec, fl, _] =>
       if fl.length != 2 then ("bad-op", "ok") else ("-", judgeGB codec (fl.endsWith "1") impl)
     | ["pp", hs, cmd] =>
@@ -134,7 +139,11 @@ def c27Step (_ : Unit) (op impl : String) : Unit × String × String :=
               else if kind == "bytes" && (rest.head?.bind hexDecode).any (fun b => b.length > d.length) then "viol:alloc-unbounded:prim.bytes"
               else "ok"
             | none => "viol:unparseable-output"
-          | ["err"] => "ok"
+          | ["err"] =>
+            -- a count inside the declared maximum must not be refused (spec = the proved model)
+            if kind == "count" && (cCount d mx).isSome then "viol:rejected-count-within-declared-max"
+            else if kind == "slicecount" && (cSliceCount d mx).isSome then "viol:rejected-count-within-declared-max"
+            else "ok"
           | _ => "viol:unparseable-output"
         (m, v)
       | _, _ => ("bad-op", "ok")
